@@ -14,6 +14,14 @@ func vTwoVersions(bkt *vBucket) { vVersions(bkt, 2) }
 
 func vVersions(bkt *vBucket, n int) {
 	for w := 0; w < n; w++ {
+		vVersionN(bkt, w)
+	}
+}
+
+// vVersionN: writer w, starting from the empty table, commits row w+1 (and a
+// row it deletes again); its objects are added to bkt as one more version.
+func vVersionN(bkt *vBucket, w int) {
+	{
 		fb := vNewBucket()
 		symS3Register(fb.client(10 + w))
 		c := vConnect()
@@ -82,8 +90,14 @@ func VerifH_C13_sqlite() {
 	symAssert(err == nil, "scan-ok")
 	symAssert(len(keys0) == nv, "sees-all-versions")
 	steps := symParam("steps", 2)
+	grown := false
+	ops := []int{0, 1, 2, 3, 4, 5, 6}
+	if symParam("opset", 0) == 1 {
+		// longer sequences over the transaction-shaped statements only
+		ops = []int{0, 3, 4}
+	}
 	for i := 0; i < steps; i++ {
-		switch symChoice("op", 7) {
+		switch ops[symChoice("op", len(ops))] {
 		case 0: // INSERT: refused, SQLite rolls the statement back
 			if vt.Begin() != nil {
 				continue // an earlier BEGIN..COMMIT with a refused write left the table "in a transaction": still an error for the write
@@ -115,9 +129,21 @@ func VerifH_C13_sqlite() {
 				symAssert(vt.Sync() == nil, "sync-ok")
 				symAssert(vt.Commit() == nil, "commit-ok")
 			}
-		case 4: // select s3db_refresh('t'), s3db_version('t')
-			vRefresh(c, "t")
+		case 4: // select s3db_refresh('t'), s3db_version('t'); possibly after another writer committed
+			if symParam("grow", 1) == 1 && !grown && symChoice("another-writer-committed", 2) == 1 {
+				vVersionN(bkt, 7)
+				symS3Register(bkt.client(1))
+				grown = true
+			}
+			failed := vRefresh(c, "t")
 			vVersion(c, "t")
+			// a refresh is the one statement that may change what is visible
+			keys0, _, err = vScanAll(vt)
+			symAssert(err == nil, "scan-after-refresh-ok")
+			if grown && !failed {
+				symAssert(len(keys0) == nv+1, "refresh-shows-the-other-writers-commit")
+			}
+			continue
 		case 5: // select * from s3db_changes (from = what s3db_version gave | none, to omitted)
 			ct := &ChangesTable{table: vt.common, module: c.changes}
 			if symChoice("from-given", 2) == 1 {
